@@ -378,36 +378,58 @@ def r_cmd_shapes(ctx):
     if dchain is None or cvar is None:
         ctx.unproven(inst, d.loc(), 'the dispatcher does not branch on isinstance(<command>, tuple)')
     else:
-        arms = []
-        cur = dchain
-        while True:
-            arms.append((cur.test, cur.body))
-            if len(cur.orelse) == 1 and isinstance(cur.orelse[0], ast.If):
-                cur = cur.orelse[0]
-                continue
-            arms.append((None, cur.orelse))
-            break
+        # the statement list that holds the chain, from the chain on (an if/elif/else chain or a sequence of early returns)
+        from ..inline import InlineReturn as _IR
+
+        def find_list(stmts):
+            for i, st_ in enumerate(stmts):
+                if st_ is dchain:
+                    return stmts[i:]
+                for fld in ('body', 'orelse', 'finalbody'):
+                    sub = getattr(st_, fld, None)
+                    if isinstance(sub, list) and sub and isinstance(sub[0], ast.stmt):
+                        r_ = find_list(sub)
+                        if r_ is not None:
+                            return r_
+            return None
+        tail = find_list(d.node.body) or [dchain]
         bad = None
-        n_eval = 0
+        n_eval = [0]
+
+        def simulate(stmts, env, found):
+            # -> True when the list was left by a return; `found` collects the arity of the unpacking that is executed
+            for st_ in stmts:
+                if isinstance(st_, (ast.Return, _IR, ast.Raise)):
+                    return True
+                if isinstance(st_, ast.If):
+                    n_eval[0] += 1
+                    if bool(U.eval_arith(st_.test, env)):
+                        if simulate(st_.body, env, found):
+                            return True
+                    elif simulate(st_.orelse, env, found):
+                        return True
+                    continue
+                if isinstance(st_, InlineBlock):
+                    simulate(st_.body, env, found)
+                    continue
+                if isinstance(st_, ast.Assign) and isinstance(st_.value, ast.Name) and st_.value.id == cvar:
+                    found.append(len(st_.targets[0].elts) if isinstance(st_.targets[0], ast.Tuple) else 1)
+                elif isinstance(st_, ast.Assign) and isinstance(st_.value, ast.Tuple) and st_.value.elts and isinstance(st_.value.elts[0], ast.Name) \
+                        and st_.value.elts[0].id == cvar and isinstance(st_.targets[0], ast.Tuple):
+                    found.append(1)      # `id, args, kwargs = command, [], {}`: the command itself is the id
+            return False
         try:
             for size in sorted(shapes_set):
                 env = {'isinstance(%s, tuple)' % cvar: size > 1, 'len(%s)' % cvar: size}
-                chosen = None
-                for test, body in arms:
-                    n_eval += 1
-                    if test is None or U.eval_arith(test, env):
-                        chosen = body
-                        break
-                arity = None
-                for st_ in chosen or []:
-                    if isinstance(st_, ast.Assign) and isinstance(st_.value, ast.Name) and st_.value.id == cvar:
-                        arity = len(st_.targets[0].elts) if isinstance(st_.targets[0], ast.Tuple) else 1
+                found = []
+                simulate(tail, env, found)
+                arity = found[0] if found else None
                 if arity != size and bad is None:
                     bad = (size, arity)
         except AnalysisError as e:
             ctx.unproven(inst, d.loc(dchain), str(e))
             bad = 0
-        ctx.tick(n_eval)
+        ctx.tick(n_eval[0])
         if bad is None:
             ctx.ok(inst, d.loc(dchain), 'sizes %s each reach the unpacking of the same arity' % sorted(shapes_set))
         elif bad != 0:
@@ -916,7 +938,17 @@ def r_decode_contained(ctx):
                 continue
             uses = any(isinstance(x, ast.Name) and x.id in tainted and isinstance(x.ctx, ast.Load) for x in ast.walk(n.ast))
             is_slice_only = isinstance(n.ast, ast.Assign) and isinstance(n.ast.value, ast.Subscript) and P.self_attr(n.ast.value.value, parse.self_name) == rbuf
-            if uses and not is_slice_only:
+            # taking apart a pair the parser built itself (`frame = (length, payload)` ... `length, payload = frame`) cannot raise:
+            # on every path the local equals a tuple display of as many elements as there are targets
+            own_pair = False
+            if isinstance(n.ast, ast.Assign) and len(n.ast.targets) == 1 and isinstance(n.ast.targets[0], (ast.Tuple, ast.List)) and isinstance(n.ast.value, ast.Name):
+                fr_ = U.full_run(ctx, parse)
+                want = len(n.ast.targets[0].elts)
+                vt = U.explorer(ctx, parse).tb.term(n.ast.value)
+                fss = fr_.facts_at(n.id)
+                own_pair = bool(fss) and all(any(l[0] == 'eq' and ((l[1] == vt and isinstance(l[2].node, ast.Tuple) and len(l[2].node.elts) == want)
+                                                                 or (l[2] == vt and isinstance(l[1].node, ast.Tuple) and len(l[1].node.elts) == want)) for l in fs) for fs in fss)
+            if uses and not is_slice_only and not own_pair:
                 dec_nodes.append(n)
     for n in dec_nodes:
         inst = 'decode step `%s` contained' % unparse(n.ast)[:50]
